@@ -82,8 +82,8 @@ U_CTX = ["ptw:exp", "smul:c", "mat", "conj", "sum", "dl:u", "gauss_d"]     # con
 B_CTX = ["add", "mul", "vdot", "pair"]
 U_TINY = ["ptw:exp", "conj", "sum"]
 B_TINY = ["mul", "vdot"]
-U_TINY_T = ["ptw:exp", "ptw:reciprocal", "conj", "mat", "sum", "gauss_d", "ham"]
-B_TINY_T = ["mul", "vdot", "eadd", "add"]
+U_TINY_T = ["ptw:exp", "conj", "mat", "sum", "gauss_d", "ham"]
+B_TINY_T = ["mul", "vdot", "eadd"]
 E_SUM = ["gauss_d", "gauss_icov", "poisson", "studentt"]
 
 
@@ -119,6 +119,18 @@ def _mixed_size2():
     grow(A, U_CTX, B_CTX, ())
     grow(R, full, BINARY, WRAPPERS)
     return {2: out}
+
+
+U_XL = ["ptw:exp", "sum", "gauss_d", "esmul", "ham"]
+B_XL = ["eadd", "mul", "add"]
+
+
+def _composite_leaf_trees(n):
+    """trees over the library operators that live directly on two keys (vf/ref/c04_expr.py) and leaf a"""
+    from vf.ref import c03_expr as X
+    from vf.ref import c04_expr as X4
+    by = X.enumerate_trees(["a"] + X4.XLEAF_NAMES, U_XL, B_XL, n)
+    return {s: [t for t in v if any(l in json.dumps(t) for l in X4.XLEAF_NAMES)] for s, v in by.items()}
 
 
 def _energy_sums():
@@ -157,12 +169,16 @@ def space(tier):
         add("reduced alphabet, <=2 nodes", "x", ["x"], U_CTX, B_CTX, 2, ["pre:exp"])
         add("tiny alphabet, <=3 nodes", "ab", ["a", "b"], U_TINY, B_TINY, 3, grid_top=(0,))
         blocks.append(("likelihood sums", "ab", _energy_sums(), {3: (0, 1), 4: (0,)}))
+        blocks.append(("operators on two keys (composite leaves), <=2 nodes", "ab", _composite_leaf_trees(2),
+                       {0: (0, 1), 1: (0, 1), 2: (0,)}))
     else:
         add("full alphabet, <=2 nodes", "ab", ["a", "b", "La"], full, BINARY, 2, WRAPPERS)
         add("full alphabet, <=2 nodes", "x", ["x", "Lx"], full, BINARY, 2, WRAPPERS)
         add("reduced alphabet, <=3 nodes", "ab", ["a", "b"], U_RED, B_RED, 3, ["pre:exp"], grid_top=(0,))
         add("tiny alphabet, <=4 nodes, depth<=3", "ab", ["a", "b"], U_TINY_T, B_TINY_T, 4, depth=3, grid_top=(0,))
         blocks.append(("likelihood sums", "ab", _energy_sums(), {3: (0, 1), 4: (0, 1)}))
+        blocks.append(("operators on two keys (composite leaves), <=3 nodes", "ab", _composite_leaf_trees(3),
+                       {0: (0, 1), 1: (0, 1), 2: (0, 1), 3: (0,)}))
     _space_cache[tier] = blocks
     return blocks
 
@@ -175,7 +191,8 @@ def cases(tier, seed):
             trees = list(by[size])
             if cfg == "x":
                 # ducktape: the same single-domain trees behind a key
-                trees = trees + [["dtape:a", t] for t in by[size] if X.tree_type(t) != "SS"]
+                if size <= 1 or tier == "quick":
+                    trees = trees + [["dtape:a", t] for t in by[size] if X.tree_type(t) != "SS"]
             for t in trees:
                 k = json.dumps(t)
                 if (cfg, k) in seen:
@@ -183,7 +200,8 @@ def cases(tier, seed):
                 seen.add((cfg, k))
                 key = (X.tree_size(t), X.tree_depth(t), cfg != "x")
                 for dt in ("r", "c"):
-                    for g in grid[size]:
+                    # the mixed-sign point 1 matters for real kinks/ranges; complex input uses it only for <= 1 node
+                    for g in (grid[size] if (dt == "r" or size <= 1 or tier != "quick") else grid[size][:1]):
                         out.append((key + (dt != "r", g, k), dict(cfg=cfg, tree=t, dt=dt, g=g, seed=int(seed))))
     out.sort(key=lambda c: c[0])
     return [c for _, c in out]
@@ -275,7 +293,7 @@ def _documented_rejection(e):
     import traceback
     if not isinstance(e, ValueError):
         return False
-    if "unexpected JAX type" in str(e):
+    if "unexpected JAX type" in str(e) or ".imag called on a non-complex Field" in str(e):
         return True
     tb = traceback.extract_tb(e.__traceback__)
     return any(f.name == "apply" and "simple_linear_operators" in f.filename for f in tb[-2:])
@@ -284,6 +302,7 @@ def _documented_rejection(e):
 def evaluate(case, localise=True):
     """-> ("skip", why) | ("done", fails, stats, info)"""
     from vf.ref import c03_expr as X
+    from vf.ref import c04_expr  # noqa: F401  (registers the composite leaves)
     cplx = case["dt"] == "c"
     E = X.get_env(case["seed"], cplx)
     ift = E.ift
@@ -297,7 +316,7 @@ def evaluate(case, localise=True):
     typ = X.tree_type(t)
     n = NP = sum(np.asarray(inp[k]).size for k in keys)
     J = X.ref_jacobian(lambda d, xp: X.ref_eval(t, E, xp, d, False), inp, keys, cplx)
-    M = X.ref_metric(t, E, inp, keys, cplx) if typ in ("E", "H") else None
+    M = X.ref_metric(t, E, inp, keys, cplx) if typ in ("E", "H", "Em") else None
     ref = dict(val=X.flat(vref).astype(np.complex128), J=J, M=M, n=n, out_cplx=bool(np.iscomplexobj(X.flat(vref))))
     if not np.all(np.isfinite(J)) or np.abs(J).max(initial=0.) > 1e8:
         return ("skip", "reference Jacobian not finite / too large")
@@ -324,7 +343,10 @@ def evaluate(case, localise=True):
                     _check_lin(E, X, lin, "op", wm, ref, fails, stats, do_adjoint=not wm)
         except Exception as e:      # noqa
             import traceback
-            fails.append(Fail("exception:%s" % type(e).__name__, "op", "%r\n%s" % (e, traceback.format_exc()[-1500:])))
+            if _documented_rejection(e):
+                stats["api_rejected"] = stats.get("api_rejected", 0) + 1
+            else:
+                fails.append(Fail("exception:%s" % type(e).__name__, "op", "%r\n%s" % (e, traceback.format_exc()[-1500:])))
 
     # ---- Linearization / Field methods
     try:
@@ -333,14 +355,20 @@ def evaluate(case, localise=True):
             fails.append(Fail("value", "fld", "Field-method evaluation differs from reference (%s)" % _md(v, ref["val"])))
     except Exception as e:      # noqa
         import traceback
-        fails.append(Fail("exception:%s" % type(e).__name__, "fld", "%r\n%s" % (e, traceback.format_exc()[-1500:])))
+        if _documented_rejection(e):
+            stats["api_rejected"] = stats.get("api_rejected", 0) + 1
+        else:
+            fails.append(Fail("exception:%s" % type(e).__name__, "fld", "%r\n%s" % (e, traceback.format_exc()[-1500:])))
     try:
         for wm in ((False, True) if M is not None else (False,)):
             lin = X.lin_eval(t, E, ift.Linearization.make_var(x, wm))
             _check_lin(E, X, lin, "lin", wm, ref, fails, stats, do_adjoint=not wm)
     except Exception as e:      # noqa
         import traceback
-        fails.append(Fail("exception:%s" % type(e).__name__, "lin", "%r\n%s" % (e, traceback.format_exc()[-1500:])))
+        if _documented_rejection(e):
+            stats["api_rejected"] = stats.get("api_rejected", 0) + 1
+        else:
+            fails.append(Fail("exception:%s" % type(e).__name__, "lin", "%r\n%s" % (e, traceback.format_exc()[-1500:])))
 
     info = dict(type=typ, keys=keys, size=X.tree_size(t), metric=M is not None)
     return ("done", fails, stats, info)
